@@ -773,6 +773,7 @@ func genC05(c *Ctx) {
 	}
 	genC05Dec(c)
 	genC05R4(c)
+	genC05R6(c)
 }
 
 // --- 7. decoder configurations x value types that use the decoder's state
@@ -1274,6 +1275,36 @@ func c05Regressions(c *Ctx) {
 		st("items"), st("marshal"), sx.L(sx.A("marshal"), sx.Nat(1))}
 	in10 := sx.L(sx.L(sx.A("new"), c05ItemsSx(k10)), sx.L(s10...))
 	c05CfgOracle(c, in10, c.Emit("c05.cfg", in10, "regression|clone"), s10, k10, true)
+	// lookups of ABSENT keys through ProveKeyInHashmap (seeded change C05-r6m2: only the leaf label was
+	// compared): Uint32 keys 0x10, 0x11, 0x20, 0x40000020; the absent keys differ from a stored key only
+	// inside the root label / an inner label
+	var k11 []c05KV
+	for _, k := range []uint32{0x10, 0x11, 0x20, 0x40000020} {
+		k11 = append(k11, c05KV{c05U32Bits(k), k})
+	}
+	k11 = c05SortedDistinct(k11)
+	t11 := c05Build(k11)
+	t11.chooseForms(c.R.Fork(5), "go")
+	p11, _ := t11.cells(32)
+	for _, k := range []uint32{0x10, 0x80000010, 0x00100010, 0x12, 0x40000020, 0x40000021} {
+		in11 := sx.L(p11.sx(), sx.Bits(c05U32Bits(k)))
+		want := "'err"
+		if k == 0x10 || k == 0x40000020 {
+			want = sx.L(sx.A("found"), sx.N(uint64(k))).String()
+		}
+		if out11 := c.Emit("c05.find", in11, "regression|find"); out11.String() != want {
+			c.Fail("c05.find", in11, "lookup-regression", fmt.Sprintf("ProveKeyInHashmap(%#x) in the dictionary {0x10, 0x11, 0x20, 0x40000020} answers %s, expected %s", k, out11, want))
+		}
+	}
+	// AccountBalances of a split state whose right half holds more accounts than the left one
+	// (seeded change C05-r6m1: the right values were stored under the left keys)
+	acc := func(first string, g uint64) sx.V { return sx.L(sx.Bits(first+strings.Repeat("0", 248)), sx.N(g)) }
+	in12 := sx.L(sx.B(true), sx.L(acc("00000001", 101), acc("00000010", 102)),
+		sx.L(acc("10000001", 201), acc("10000010", 202), acc("10000011", 203)))
+	want12 := sx.L(acc("00000001", 101), acc("00000010", 102), acc("10000001", 201), acc("10000010", 202), acc("10000011", 203)).String()
+	if out12 := c.Emit("c05.bal", in12, "regression|bal"); out12.String() != want12 {
+		c.Fail("c05.bal", in12, "account-balances", "AccountBalances of a split state with 2 + 3 accounts answers "+trunc(out12.String(), 200))
+	}
 }
 
 // Known finding addr-workchain-int8 (C05_address_workchain_int8_refuted): replayed on
@@ -1756,4 +1787,186 @@ func c05CfgKey(last string, lastObj, o int, what string) string {
 		return "cfg-objects-share-storage"
 	}
 	return "cfg-" + what
+}
+
+// ---- round 6 streams -------------------------------------------------------------
+
+type c05Seg struct {
+	kind     string // root-label | inner-label | leaf-label | fork-bit
+	pos, len int
+}
+
+// the labels and fork bits on the path of a stored key
+func (t *c05Tree) pathOf(key string, pos int, depth int, segs *[]c05Seg) {
+	kind := "inner-label"
+	if depth == 0 {
+		kind = "root-label"
+	}
+	if t.leaf {
+		kind = "leaf-label"
+	}
+	*segs = append(*segs, c05Seg{kind, pos, len(t.label)})
+	if t.leaf {
+		return
+	}
+	p := pos + len(t.label)
+	*segs = append(*segs, c05Seg{"fork-bit", p, 1})
+	if key[p] == '1' {
+		t.r.pathOf(key, p+1, depth+1, segs)
+	} else {
+		t.l.pathOf(key, p+1, depth+1, segs)
+	}
+}
+
+func genC05R6(c *Ctx) {
+	r := c.R
+	// --- 10. lookups through ProveKeyInHashmap: present keys, and absent keys derived from stored
+	//         keys by changing a bit inside each label on the path and each fork bit
+	nFind := c.Scale(6, 50)
+	for _, kt := range c05KeyTypes {
+		if kt.signed {
+			continue
+		}
+		for i := 0; i < nFind; i++ {
+			shape := c05Shapes[r.Intn(len(c05Shapes))]
+			if r.Chance(40) {
+				shape = "prefix"
+			}
+			var kvs []c05KV
+			for _, k := range c05KeySet(r, kt.n, 1+c05PickSize(r, 40), shape) {
+				kvs = append(kvs, c05KV{k, uint32(r.U64())})
+			}
+			kvs = c05SortedDistinct(kvs)
+			ref := map[string]uint32{}
+			for _, kv := range kvs {
+				ref[kv.k] = kv.v
+			}
+			t := c05Build(kvs)
+			t.chooseForms(r, []string{"go", "random", "same"}[r.Intn(3)])
+			pc, fits := t.cells(kt.n)
+			if !fits {
+				continue
+			}
+			type probe struct{ key, cls string }
+			var probes []probe
+			for j := 0; j < 3; j++ {
+				stored := kvs[r.Intn(len(kvs))].k
+				if j == 0 {
+					stored = kvs[0].k
+				}
+				probes = append(probes, probe{stored, "present"})
+				var segs []c05Seg
+				t.pathOf(stored, 0, 0, &segs)
+				for _, sg := range segs {
+					if sg.len == 0 {
+						continue
+					}
+					b := []byte(stored)
+					b[sg.pos+r.Intn(sg.len)] ^= 1
+					probes = append(probes, probe{string(b), sg.kind})
+				}
+			}
+			probes = append(probes, probe{c05RandBits(r, kt.n), "random"})
+			seen := map[string]bool{}
+			for _, p := range probes {
+				if seen[p.key] {
+					continue
+				}
+				seen[p.key] = true
+				want := "'err"
+				cls := p.cls + "|absent"
+				if v, ok := ref[p.key]; ok {
+					want = sx.L(sx.A("found"), sx.N(uint64(v))).String()
+					cls = p.cls + "|present"
+				}
+				in := sx.L(pc.sx(), sx.Bits(p.key))
+				out := c.Emit("c05.find", in, fmt.Sprintf("%s|%s", c05Family(kt), cls))
+				if out.String() != want {
+					c.Fail("c05.find", in, "lookup-"+p.cls, fmt.Sprintf("ProveKeyInHashmap for a key (%s of a stored key changed) answers %s, the dictionary's mapping says %s", p.cls, trunc(out.String(), 60), want))
+				}
+			}
+		}
+	}
+
+	// --- 11. ShardState.AccountBalances over unsplit and split states
+	for i, nb := 0, c.Scale(200, 2000); i < nb; i++ {
+		split := r.Chance(75)
+		mk := func(first string, size int) ([]sx.V, []c05KV64, []bool) {
+			set := map[string]bool{}
+			for j := 0; j < size; j++ {
+				k := c05RandBits(r, 256)
+				if first != "" {
+					k = first + k[1:]
+				}
+				if r.Chance(30) { // close keys
+					k = k[:8] + strings.Repeat("0", 240) + k[248:]
+				}
+				set[k] = true
+			}
+			var ks []string
+			for k := range set {
+				ks = append(ks, k)
+			}
+			sort.Strings(ks)
+			var l []sx.V
+			var kv []c05KV64
+			var has []bool
+			for _, k := range ks {
+				switch x := r.Intn(10); {
+				case x == 0:
+					l = append(l, sx.L(sx.Bits(k), sx.A("none")))
+					kv, has = append(kv, c05KV64{k, 0}), append(has, false)
+				case x == 1:
+					l = append(l, sx.L(sx.Bits(k), sx.A("accnone")))
+					kv, has = append(kv, c05KV64{k, 0}), append(has, true)
+				default:
+					g := r.U64() >> uint(r.Intn(64))
+					l = append(l, sx.L(sx.Bits(k), sx.N(g)))
+					kv, has = append(kv, c05KV64{k, g}), append(has, true)
+				}
+			}
+			return l, kv, has
+		}
+		lf, rf := "0", "1"
+		if r.Chance(25) { // arbitrary halves, keys may repeat across them
+			lf, rf = "", ""
+		}
+		ls, lkv, lhas := mk(lf, r.Intn(10))
+		rs, rkv, rhas := mk(rf, r.Intn(14))
+		if rf == "" && len(lkv) > 0 && r.Bool() { // the same account in both halves: the right one wins
+			rs = append(rs, sx.L(sx.Bits(lkv[0].k), sx.N(77)))
+			rkv, rhas = append(rkv, c05KV64{lkv[0].k, 77}), append(rhas, true)
+		}
+		want := map[string]uint64{}
+		for j, kv := range lkv {
+			if lhas[j] {
+				want[kv.k] = kv.v
+			}
+		}
+		if split {
+			for j, kv := range rkv {
+				if rhas[j] {
+					want[kv.k] = kv.v
+				}
+			}
+		}
+		var ks []string
+		for k := range want {
+			ks = append(ks, k)
+		}
+		sort.Strings(ks)
+		var ws []sx.V
+		for _, k := range ks {
+			ws = append(ws, sx.L(sx.Bits(k), sx.N(want[k])))
+		}
+		rel := "right<=left"
+		if len(rkv) > len(lkv) {
+			rel = "right>left"
+		}
+		in := sx.L(sx.B(split), sx.L(ls...), sx.L(rs...))
+		out := c.Emit("c05.bal", in, fmt.Sprintf("split-%v|%s|%s", split, rel, map[bool]string{true: "disjoint", false: "arbitrary"}[lf != ""]))
+		if out.String() != sx.L(ws...).String() {
+			c.Fail("c05.bal", in, "account-balances", fmt.Sprintf("ShardState.AccountBalances (split = %v, %d + %d accounts) answers %s, the accounts dictionaries say %s", split, len(lkv), len(rkv), trunc(out.String(), 200), trunc(sx.L(ws...).String(), 200)))
+		}
+	}
 }
